@@ -126,7 +126,8 @@ type leaf struct {
 	got  map[uuid.UUID]int
 	bad  []string
 	want func(protocol.Message) bool
-	gate chan struct{} // when set, the first ID() call parks here
+	lastQ uuid.UUID     // the last quality task handed over (what a relay remembers for late subscribers)
+	gate  chan struct{} // when set, the first ID() call parks here
 	once sync.Once
 	in   chan struct{}
 }
@@ -146,7 +147,12 @@ func (l *leaf) rec(m protocol.Message) error {
 	}
 	return nil
 }
-func (l *leaf) RequestQualities(_ context.Context, m *protocol.RequestQualities) error { return l.rec(m) }
+func (l *leaf) RequestQualities(_ context.Context, m *protocol.RequestQualities) error {
+	l.mu.Lock()
+	l.lastQ = m.TaskID
+	l.mu.Unlock()
+	return l.rec(m)
+}
 func (l *leaf) RequestProof(_ context.Context, m *protocol.RequestProof) error         { return l.rec(m) }
 func (l *leaf) RequestSignature(_ context.Context, m *protocol.RequestSignature) error { return l.rec(m) }
 func (l *leaf) count(id uuid.UUID) int {
@@ -157,6 +163,10 @@ func (l *leaf) count(id uuid.UUID) int {
 
 type relay struct {
 	name   string
+	parent string // "S" or the relay whose pool this one dialled
+	pool   *fractal.CollectorPool
+	stopPl context.CancelFunc
+	addr   string
 	px     *proxy
 	prs    *fractal.PersistentRemoteSuperior
 	cancel context.CancelFunc
@@ -172,6 +182,7 @@ type drv struct {
 	stopPl  context.CancelFunc
 	addr    string
 	home    map[string]string
+	rhome   map[string]string
 	leaves  map[string]*leaf
 	relays  map[string]*relay
 	tasks   map[string]chan *fractal.CollectorMsg
@@ -289,7 +300,7 @@ func (d *drv) sync(r *relay) bool {
 			return false
 		}
 	}
-	d.srcName[r.rcID] = r.name
+	d.srcName[r.rcID] = d.rootOf(r.name)
 	return true
 }
 
@@ -340,8 +351,38 @@ func (p *proxy) sever() {
 	p.mu.Unlock()
 }
 
+func (d *drv) parentOf(name string) string {
+	if p, ok := d.rhome[name]; ok {
+		return p
+	}
+	return "S"
+}
+
+func (d *drv) rootOf(node string) string {
+	for d.parentOf(node) != "S" {
+		node = d.parentOf(node)
+	}
+	return node
+}
+
+// poolOf: the collector pool a node's children dial
+func (d *drv) poolOf(node string) (*fractal.CollectorPool, string) {
+	if node == "S" {
+		return d.pool, d.addr
+	}
+	if r := d.relays[node]; r != nil {
+		return r.pool, r.addr
+	}
+	return nil, ""
+}
+
 func (d *drv) connect(name string) string {
-	px, err := newProxy(d.addr)
+	parent := d.parentOf(name)
+	ppool, paddr := d.poolOf(parent)
+	if ppool == nil {
+		return "skip"
+	}
+	px, err := newProxy(paddr)
 	if err != nil {
 		return "err: " + err.Error()
 	}
@@ -349,15 +390,36 @@ func (d *drv) connect(name string) string {
 	if err != nil {
 		return "err: " + err.Error()
 	}
-	r := &relay{name: name, px: px, prs: prs, cancel: cancel, probe: d.newLeaf("probe-" + name)}
+	r := &relay{name: name, parent: parent, px: px, prs: prs, cancel: cancel, probe: d.newLeaf("probe-" + name)}
 	prs.Subscribe(d.ctx, r.probe)
+	// like cmd fractal: the relay serves collectors of its own through a pool whose superior is its connection upstream
+	for try := 0; try < 5; try++ {
+		r.addr = freeAddr()
+		r.pool, r.stopPl, err = fractal.NewCollectorPool(d.ctx, prs, fractal.CollectorPoolListenAddress(r.addr))
+		if err == nil {
+			break
+		}
+	}
+	if err != nil {
+		return "err: relay pool: " + err.Error()
+	}
 	d.relays[name] = r
 	if !d.sync(r) {
 		return "nosync"
 	}
-	if d.cur != "" {
-		id := nameUUID("task", d.cur, d.w.seed)
-		if !waitFor(3*time.Second, func() bool { return r.probe.count(id) > 0 }) {
+	// what the parent hands a newcomer: the superior's current quality task, a relay's last one
+	var want uuid.UUID
+	if parent == "S" {
+		if d.cur != "" {
+			want = nameUUID("task", d.cur, d.w.seed)
+		}
+	} else if pr := d.relays[parent]; pr != nil {
+		pr.probe.mu.Lock()
+		want = pr.probe.lastQ
+		pr.probe.mu.Unlock()
+	}
+	if want != uuid.Nil {
+		if !waitFor(3*time.Second, func() bool { return r.probe.count(want) > 0 }) {
 			return "nolatest"
 		}
 	}
@@ -369,12 +431,24 @@ func (d *drv) disconnect(name string, hard ...bool) string {
 	if r == nil {
 		return "ok"
 	}
+	// everything that dialled this relay's pool goes first
+	for q, cr := range d.relays {
+		if cr.parent == name {
+			if res := d.disconnect(q); res != "ok" {
+				return "child-" + q + "-" + res
+			}
+		}
+	}
+	ppool, _ := d.poolOf(r.parent)
+	if ppool == nil {
+		ppool = d.pool
+	}
 	if len(hard) > 0 && hard[0] {
 		// the connection is cut in the middle first; the pool must notice on its own, and stopping the relay (now in
 		// its reconnect wait) must still return promptly
-		before := d.pool.Count()
+		before := ppool.Count()
 		r.px.sever()
-		if !waitFor(3*time.Second, func() bool { return d.pool.Count() < before }) {
+		if !waitFor(3*time.Second, func() bool { return ppool.Count() < before }) {
 			return "poolkeeps-after-cut"
 		}
 	}
@@ -386,13 +460,16 @@ func (d *drv) disconnect(name string, hard ...bool) string {
 			}
 		}
 	}
-	before := d.pool.Count()
+	if r.stopPl != nil && !within(3*time.Second, r.stopPl) {
+		return "relay-pool-stop-timeout"
+	}
+	before := ppool.Count()
 	if !within(3*time.Second, r.cancel) {
 		return "timeout"
 	}
 	delete(d.relays, name)
 	// the pool notices the lost connection, stops its collector and unsubscribes it
-	if !(len(hard) > 0 && hard[0]) && !waitFor(3*time.Second, func() bool { return d.pool.Count() < before }) {
+	if !(len(hard) > 0 && hard[0]) && !waitFor(3*time.Second, func() bool { return ppool.Count() < before }) {
 		return "poolkeeps"
 	}
 	return "ok"
@@ -493,9 +570,15 @@ func (d *drv) addTask(t, kind, tg string) string {
 		for _, r := range d.relays {
 			via = append(via, r)
 		}
-	} else if r := d.relays[tg]; r != nil {
+	} else if r := d.relays[tg]; r != nil && r.parent == "S" {
 		target = r.rcID
-		via = append(via, r)
+		for _, q := range d.relays {
+			if d.rootOf(q.name) == tg {
+				via = append(via, q)
+			}
+		}
+	} else if r != nil {
+		target = nameUUID("relay-behind-relay", tg, d.w.seed) // not a collector of the superior
 	} else if _, isLeaf := d.home[tg]; !isLeaf {
 		target = nameUUID("relay-down", tg, d.w.seed) // a relay that is not connected has no collector id at the superior
 	} else if a := d.autos[tg]; d.isAuto(tg) && a != nil && a.lc != nil {
@@ -616,6 +699,12 @@ func run(sc vh.Scenario, dir string, rec *vh.Rec) {
 			d.home[k] = v.(string)
 		}
 	}
+	d.rhome = map[string]string{}
+	if h, ok := sc.Opt["rhome"].(map[string]interface{}); ok {
+		for k, v := range h {
+			d.rhome[k] = v.(string)
+		}
+	}
 	for n, h := range d.home {
 		if h == "S" {
 			d.srcName[nameUUID("leaf", n, w.seed)] = n
@@ -706,6 +795,9 @@ func run(sc vh.Scenario, dir string, rec *vh.Rec) {
 	}
 	sort.Strings(names)
 	for _, n := range names {
+		if d.relays[n] == nil {
+			continue // went away with its parent
+		}
 		if r := d.disconnect(n); r != "ok" {
 			res = "relay-stop-" + r
 		}
